@@ -669,7 +669,7 @@ def search(run: lib.Run, broken):
     if broken:
         n = run.budget(2500, 12000)
     depth = run.budget(3, 5)
-    sweep = [(c, cfg) for c in U.sweep_cases(rng) for cfg in ("stdlib", "default", "tag")]
+    sweep = [(c, cfg) for c in U.sweep_cases(rng) + U.bytes_sweep_cases(rng) for cfg in ("stdlib", "default", "tag")]
     stream = list(getattr(run, "mismatch_cases", []))[:200] + sweep + case_stream(rng, n, depth)
     fails, nev, nrt = [], 0, 0
     law = collections.Counter()
